@@ -23,6 +23,7 @@ type c03ev struct {
 	t       time.Time
 	payload string
 	level   int
+	shared  []log.Field // level 3: a slice owned by the calling goroutine and reused for all its calls
 }
 
 type c03ctxKey struct{}
@@ -35,8 +36,12 @@ func c03emit(tag *log.Tag, e *c03ev) {
 		log.Info(ctx, tag, log.Msg(e.id), log.String("p", e.payload), log.Int("n", len(e.payload)))
 	case 1:
 		log.Warnf(ctx, tag, "%s %s", e.id, e.payload)
-	default:
+	case 2:
 		log.Error(ctx, tag, log.Msg(e.id), log.Object("o", log.String("p", e.payload)), log.Strings("s", []string{e.id, "x"}))
+	default:
+		// the caller passes the very same slice to every call (legal: the library must not keep or modify it);
+		// the event's identity travels in the context string
+		log.Warn(ctx, tag, e.shared...)
 	}
 }
 
@@ -124,6 +129,12 @@ func c03Worker(w *W) {
 	console := &slowSink{slow: true}
 	log.Stdout = console
 	log.TimeNow = func(ctx context.Context) time.Time { return ctx.Value(c03ctxKey{}).(*c03ev).t }
+	log.StringFromContext = func(ctx context.Context) string {
+		if e := ctx.Value(c03ctxKey{}).(*c03ev); e.level == 3 {
+			return e.id
+		}
+		return ""
+	}
 	dir := filepath.Join(w.Spec.Dir, w.Spec.Name+".d")
 	_ = os.MkdirAll(dir, 0755)
 	defer os.RemoveAll(dir)
@@ -157,6 +168,7 @@ func c03Worker(w *W) {
 	evs := make([][]*c03ev, G)
 	sweepFrom := capBytes - 260
 	for g := 0; g < G; g++ {
+		own := []log.Field{log.String("owner", fmt.Sprintf("goroutine-%d", g)), log.String("p", c03payload(g, 0, 40+g)), log.Int("g", g)}
 		for i := 0; i < M; i++ {
 			var l int
 			switch x := r.IntN(100); {
@@ -172,7 +184,7 @@ func c03Worker(w *W) {
 			if l < 1 {
 				l = 1
 			}
-			evs[g] = append(evs[g], &c03ev{id: fmt.Sprintf("id-g%dx%d-%d", g, si, i), t: base.Add(time.Duration(g*977+i*337) * time.Millisecond), payload: c03payload(g, i, l), level: (g + i) % 3})
+			evs[g] = append(evs[g], &c03ev{id: fmt.Sprintf("id-g%dx%d-%d", g, si, i), t: base.Add(time.Duration(g*977+i*337) * time.Millisecond), payload: c03payload(g, i, l), level: (g + i) % 4, shared: own})
 		}
 	}
 	offsets := map[string]int64{}
